@@ -176,11 +176,24 @@ theorem shortest_minimal (hf : WF f) (hsz : L f + 2 ≤ 200000) {bits : Nat} (h0
   subst this
   omega
 
-/-- what is *not* proved: that `shortest` returns at least one pair for every finite positive pattern
-(adequacy of the fuel `420`), and that the returned `D` is the candidate closest to the exact value.
-For concrete patterns non-emptiness is checked by `decide` (see the examples). -/
-def shortest_total_full : Prop :=
-  ∀ f, f = f32 ∨ f = f64 → ∀ bits, 0 < bits → bits < f.infBits → shortest f bits ≠ []
+/-- `shortest` is total on finite positive patterns: the fuel `420` and the start exponent suffice
+(for formats with `p ≤ 1000`, at most `100000` exponent values — in particular `f32`, `f64`) -/
+theorem shortest_total (hf : WF f) (hp : f.p ≤ 1000) (hM : f.maxExpField ≤ 100000) {bits : Nat}
+    (h0 : 0 < bits) (hfin : bits < f.infBits) : shortest f bits ≠ [] :=
+  shortest_ne_nil hf hp hM h0 hfin
+
+theorem shortest_total_f64 {bits : Nat} (h0 : 0 < bits) (hfin : bits < f64.infBits) :
+    shortest f64 bits ≠ [] := shortest_total wf_f64 (by decide) (by decide) h0 hfin
+
+theorem shortest_total_f32 {bits : Nat} (h0 : 0 < bits) (hfin : bits < f32.infBits) :
+    shortest f32 bits ≠ [] := shortest_total wf_f32 (by decide) (by decide) h0 hfin
+
+/-- what is *not* proved about `shortest`: that among the round-tripping decimals with the maximal
+exponent `E` the returned `D` is (one of) the closest to the exact value of `bits`. -/
+def shortest_closest_full : Prop :=
+  ∀ f, f = f32 ∨ f = f64 → ∀ bits, 0 < bits → bits < f.infBits → ∀ D E, (D, E) ∈ shortest f bits →
+    ∀ D', roundNE f (decFrac D' E).1 (decFrac D' E).2 = bits →
+      |(D : ℚ) * (10 : ℚ) ^ E - valQ f bits| ≤ |(D' : ℚ) * (10 : ℚ) ^ E - valQ f bits|
 
 /-! ## Non-vacuity: concrete evaluations and instantiated hypotheses -/
 
